@@ -62,21 +62,21 @@ class Immediate(Constructor):
 
 class Zeropage(Constructor):
     imm = Operand("imm", int)
-    syntax = Syntax(["zeropage", imm])
+    syntax = Syntax(["zeropage", " ", imm])
     tokens = [ByteToken]
     patterns = {"byte": imm}
 
 
 class ZeropageX(Constructor):
     imm = Operand("imm", int)
-    syntax = Syntax(["zeropage", imm, ",", "x"])
+    syntax = Syntax(["zeropage", " ", imm, ",", "x"])
     tokens = [ByteToken]
     patterns = {"byte": imm}
 
 
 class ZeropageY(Constructor):
     imm = Operand("imm", int)
-    syntax = Syntax(["zeropage", imm, ",", "y"])
+    syntax = Syntax(["zeropage", " ", imm, ",", "y"])
     tokens = [ByteToken]
     patterns = {"byte": imm}
 
